@@ -316,7 +316,13 @@ fn decode(src: &mut Src, tier: Tier) -> Case {
 		None
 	};
 	let n = slice.map(|(a, b)| b - a).unwrap_or(len);
-	let start = if src.chance(1, 3) { src.usize_in(0, n - 1) } else { 0 };
+	// (one start position in twelve lies at or just past the end: nothing to play, and both kinds of
+	// sound must say so in the same way)
+	let start = match src.weighted(&[8, 3, 1]) {
+		0 => 0,
+		1 => src.usize_in(0, n - 1),
+		_ => n + src.pick(&[0usize, 1, 5]),
+	};
 	let loop_region = if src.chance(1, 3) {
 		let s = src.usize_in(0, n - 1);
 		if src.chance(1, 3) {
